@@ -295,6 +295,14 @@ def run_lineage(case):
     cells = [LineageVolumeCellState(v0=1.0, t0=start, state=x0.copy(), time=start) for _ in range(case["cells"])]
     try:
         lin = py_SimulateCellLineage(tp.copy(), initial_cell_states=cells, Model=M, safe=case["safe"])
+    except ValueError as e:
+        if "dividing too fast" in str(e):
+            # the library's own explicit refusal: with strong partition noise a daughter can be born above the division
+            # threshold and would have to divide again within one grid step - an input the simulator declares out of range
+            C["lineages_refused_division_faster_than_grid"] += 1
+            return {"viol": [], "counters": dict(C), "nontrivial": False}
+        bad("simulation-raises", "py_SimulateCellLineage raised %r" % (e,))
+        return {"viol": viol, "counters": dict(C), "nontrivial": False}
     except Exception as e:
         bad("simulation-raises", "py_SimulateCellLineage raised %r" % (e,))
         return {"viol": viol, "counters": dict(C), "nontrivial": False}
